@@ -214,6 +214,12 @@ class _GridUFuncSignature:
         return sig1_replaced == sig2_replaced
 
 
+def _split_axis_name_position_pairs(arg: str) -> Tuple[Tuple[str, ...], Tuple[str, ...]]:
+    """Names and positions of the `name:position` pairs of one argument, in order."""
+    pairs = re.findall(f"({_AXIS_NAME}):({_AXIS_POSITION})", arg)
+    return tuple(n for n, _ in pairs), tuple(p for _, p in pairs)
+
+
 def _parse_signature_from_string(
     signature: str,
 ) -> Tuple[T_AX_POS_LIST, T_AX_POS_LIST, T_AX_POS_LIST, T_AX_POS_LIST]:
@@ -231,23 +237,18 @@ def _parse_signature_from_string(
 
     in_txt, out_txt = signature.split("->")
 
-    in_ax_names = []
-    for arg in re.findall(_ARGUMENT, in_txt):
-        # Delete the axis positions so they aren't matched as axis names
-        only_names = re.sub(_AXIS_POSITION, "", arg)
-        in_ax_names.append(tuple(re.findall(_AXIS_NAME, only_names)))
-
-    out_ax_names = []
-    for arg in re.findall(_ARGUMENT, out_txt):
-        only_names = re.sub(_AXIS_POSITION, "", arg)
-        out_ax_names.append(tuple(re.findall(_AXIS_NAME, only_names)))
-
-    in_ax_pos = [
-        tuple(re.findall(_AXIS_POSITION, arg)) for arg in re.findall(_ARGUMENT, in_txt)
+    # split every argument into its pairs, so that a name which contains a position
+    # word (or is contained in one) stays intact
+    in_args = [
+        _split_axis_name_position_pairs(arg) for arg in re.findall(_ARGUMENT, in_txt)
     ]
-    out_ax_pos = [
-        tuple(re.findall(_AXIS_POSITION, arg)) for arg in re.findall(_ARGUMENT, out_txt)
+    out_args = [
+        _split_axis_name_position_pairs(arg) for arg in re.findall(_ARGUMENT, out_txt)
     ]
+    in_ax_names = [names for names, _ in in_args]
+    in_ax_pos = [pos for _, pos in in_args]
+    out_ax_names = [names for names, _ in out_args]
+    out_ax_pos = [pos for _, pos in out_args]
 
     return in_ax_names, in_ax_pos, out_ax_names, out_ax_pos
 
@@ -278,15 +279,9 @@ def _parse_signature_from_type_hints(
             if hasattr(hint, "__metadata__")
         ]
 
-        out_ax_names = []
-        for arg in return_annotations:
-            # Delete the axis positions so they aren't matched as axis names
-            only_names = re.sub(_AXIS_POSITION, "", arg)
-            out_ax_names.append(tuple(re.findall(_AXIS_NAME, only_names)))
-
-        out_ax_pos = [
-            tuple(re.findall(_AXIS_POSITION, arg)) for arg in return_annotations
-        ]
+        out_args = [_split_axis_name_position_pairs(arg) for arg in return_annotations]
+        out_ax_names = [names for names, _ in out_args]
+        out_ax_pos = [pos for _, pos in out_args]
 
     # Now do input args
     arg_annotations = [
@@ -295,13 +290,9 @@ def _parse_signature_from_type_hints(
 
     # TODO check number of annotations?
 
-    in_ax_names = []
-    for arg in arg_annotations:
-        # Delete the axis positions so they aren't matched as axis names
-        only_names = re.sub(_AXIS_POSITION, "", arg)
-        in_ax_names.append(tuple(re.findall(_AXIS_NAME, only_names)))
-
-    in_ax_pos = [tuple(re.findall(_AXIS_POSITION, arg)) for arg in arg_annotations]
+    in_args = [_split_axis_name_position_pairs(arg) for arg in arg_annotations]
+    in_ax_names = [names for names, _ in in_args]
+    in_ax_pos = [pos for _, pos in in_args]
 
     # Do a sanity check before going any further
     str_signature = str(
